@@ -27,7 +27,7 @@ func (c01) Assumptions() []string {
 	}
 }
 
-func (c01) randomCount(tier string) int { return tierN(tier, 3000, 40000) }
+func (c01) randomCount(tier string) int { return tierN(tier, 3000, 120000) }
 func (c01) enumCount(tier string) int {
 	if tier == "thorough" {
 		return NumDigraphs(3)*Fact(3)*5 + NumDigraphs(4)*Fact(4)
@@ -35,7 +35,7 @@ func (c01) enumCount(tier string) int {
 	return NumDigraphs(3) * Fact(3)
 }
 func (p c01) NumCases(tier string) int    { return p.randomCount(tier) + p.enumCount(tier) }
-func (c01) MinNontrivial(tier string) int { return tierN(tier, 300, 3000) }
+func (c01) MinNontrivial(tier string) int { return tierN(tier, 300, 10000) }
 func (c01) ExhaustiveNote(tier string) (bool, string) {
 	if tier == "thorough" {
 		return false, "sub-space enumerated completely: all 64 digraphs on 3 nodes x 6 name-rank assignments x 5 edge kinds, all 4096 digraphs on 4 nodes x 24 name-rank assignments (edge kind rotating); the random part is sampled"
